@@ -30,6 +30,9 @@ pub enum OpKind {
     QueryInternal,
     /// GET /provision through the real listener; tick: 0 ancient, 1 the instant the query is created, 2 far future, 3 = 2^63, 4 = i128::MAX
     QueryHttp(u8),
+    /// the command line's waiting query: ProvisionQuery::get_provision_status_wait with a wait that ends a quarter of a second
+    /// from now (it polls GET /provision every 100 ms until finished or timed out); sequential histories only
+    QueryWait,
 }
 
 #[derive(Clone, Debug, Serialize, Deserialize, Hash)]
@@ -50,20 +53,25 @@ pub const CHANNEL_STATES: &[&str] = &["disabled", "Unknown", "wireserver", "Wire
 
 pub fn strategy() -> impl Strategy<Value = Case> {
     let op = prop_oneof![
-        3 => Just(OpKind::Report(Sub::Redirector)), 4 => Just(OpKind::Report(Sub::KeyLatch)), 3 => Just(OpKind::Report(Sub::Listener)),
-        2 => Just(OpKind::ResetKeyLatch), 2 => Just(OpKind::TimeUp), 2 => (0u8..4).prop_map(OpKind::SetChannel),
-        4 => Just(OpKind::QueryInternal), 3 => (0u8..5).prop_map(OpKind::QueryHttp),
+        30 => Just(OpKind::Report(Sub::Redirector)), 40 => Just(OpKind::Report(Sub::KeyLatch)), 30 => Just(OpKind::Report(Sub::Listener)),
+        20 => Just(OpKind::ResetKeyLatch), 20 => Just(OpKind::TimeUp), 20 => (0u8..4).prop_map(OpKind::SetChannel),
+        40 => Just(OpKind::QueryInternal), 30 => (0u8..5).prop_map(OpKind::QueryHttp), 1 => Just(OpKind::QueryWait),
     ];
-    (prop::collection::vec(op, 2..9), prop::collection::vec(any::<u8>(), 0..120), prop::bool::weighted(0.35), prop_oneof![2 => Just(vec![]), 1 => prop::collection::vec(0u8..16, 3)]).prop_map(|(ops, schedule, sequential, status_sel)| Case { ops, schedule, sequential, status_sel })
+    (prop::collection::vec(op, 2..9), prop::collection::vec(any::<u8>(), 0..120), prop::bool::weighted(0.35), prop_oneof![2 => Just(vec![]), 1 => prop::collection::vec(0u8..16, 3)]).prop_map(|(ops, schedule, sequential, status_sel)| {
+        // (the waiting query sleeps between its polls: it is run in sequential histories only)
+        let sequential = sequential || ops.contains(&OpKind::QueryWait);
+        Case { ops, schedule, sequential, status_sel }
+    })
 }
 
-pub const RULE: &str = "generator: in a third of the cases the three subsystems start with status messages of 0 / 40 / 500 / 900 / 990 / 1024 / 1500 / 4000 bytes (ASCII or two-byte characters); 2-8 operations on fresh shared state - readiness reports (redirector_ready, key_latched, listener_started), key_latch_ready_state_reset, provision_timeup, update_current_secure_channel_state(disabled | Unknown | a latched state), queries (get_provision_state_internal directly; GET /provision through the real listener with x-ms-azure-time_tick = an ancient instant, the instant the query is created, a far-future instant, 2^63 or the largest 128-bit integer) - run either strictly one after the other (35%) or under a generated schedule of 0-119 steps by the owned-schedule executor. oracle: sequential histories - the reference flag/tick model (DESIGN.md A.4) exactly: finished, and the error text names exactly the subsystems not ready, in order, empty iff all are; scheduled histories - possibility sets from the executor's knowledge of which operations had completed before a query started (definitely) and which had started before it ended (possibly): finished only if all three reports or the deadline or a latched channel state possibly happened (far-future tick: only if latched), a subsystem is omitted from the error text only if a report of it possibly happened and named only if it was not definitely ready. A watcher thread follows the directory with inotify (the entry status.tag may only ever receive MOVED_TO events: CREATE / MODIFY / CLOSE_WRITE under the final name mean it was written in place) and re-reads status.tag continuously: the same inode never shows two different contents (replace-by-rename), every content is empty or complete CRLF-terminated lines with the three known prefixes. non-trivial: >= 2 reports overlap a query or a reset overlaps a report (scheduled), or a sequential history in which finished flips; distinct by hash of the case.";
+pub const RULE: &str = "generator: in a third of the cases the three subsystems start with status messages of 0 / 40 / 500 / 900 / 990 / 1024 / 1500 / 4000 bytes (ASCII or two-byte characters); 2-8 operations on fresh shared state - readiness reports (redirector_ready, key_latched, listener_started), key_latch_ready_state_reset, provision_timeup, update_current_secure_channel_state(disabled | Unknown | a latched state), queries (get_provision_state_internal directly; in 2% of the histories the command line's waiting query, ProvisionQuery::get_provision_status_wait, which polls until finished or timed out; GET /provision through the real listener with x-ms-azure-time_tick = an ancient instant, the instant the query is created, a far-future instant, 2^63 or the largest 128-bit integer) - run either strictly one after the other (35%) or under a generated schedule of 0-119 steps by the owned-schedule executor. oracle: sequential histories - the reference flag/tick model (DESIGN.md A.4) exactly: finished, and the error text names exactly the subsystems not ready, in order, empty iff all are; scheduled histories - possibility sets from the executor's knowledge of which operations had completed before a query started (definitely) and which had started before it ended (possibly): finished only if all three reports or the deadline or a latched channel state possibly happened (far-future tick: only if latched), a subsystem is omitted from the error text only if a report of it possibly happened and named only if it was not definitely ready. A watcher thread follows the directory with inotify (the entry status.tag may only ever receive MOVED_TO events: CREATE / MODIFY / CLOSE_WRITE under the final name mean it was written in place) and re-reads status.tag continuously: the same inode never shows two different contents (replace-by-rename), every content is empty or complete CRLF-terminated lines with the three known prefixes. non-trivial: >= 2 reports overlap a query or a reset overlaps a report (scheduled), or a sequential history in which finished flips; distinct by hash of the case.";
 
 #[derive(Clone, Debug)]
 pub enum Out {
     Done,
     Internal { tick: i128, error: String, channel: String },
     Http { status: u16, finished: Option<bool>, error: String, tick_sent: i128 },
+    Wait { finished: bool, error: String },
     Failed(String),
 }
 
@@ -214,7 +222,7 @@ pub fn eval(case: &Case, stats: &mut Stats) -> Outcome {
     }
     let watcher = start_watcher(keys_dir.join("status.tag"));
     let rt = tokio::runtime::Builder::new_current_thread().enable_all().build().unwrap();
-    let needs_proxy = case.ops.iter().any(|o| matches!(o, OpKind::QueryHttp(_)));
+    let needs_proxy = case.ops.iter().any(|o| matches!(o, OpKind::QueryHttp(_) | OpKind::QueryWait));
     let info = rt.block_on(async {
         let shared = SharedState::start_all();
         if needs_proxy {
@@ -261,6 +269,12 @@ pub fn eval(case: &Case, stats: &mut Stats) -> Outcome {
                     let k = *k;
                     Box::pin(async move { http_query(k).await })
                 }
+                OpKind::QueryWait => Box::pin(async move {
+                    // the wait is measured from the start of the process
+                    let d = Duration::from_millis(azure_proxy_agent::common::helpers::get_elapsed_time_in_millisec() as u64 + 250);
+                    let st = provision::provision_query::ProvisionQuery::new(3080, Some(d)).get_provision_status_wait().await;
+                    Out::Wait { finished: st.finished, error: st.errorMessage }
+                }),
             };
             ops.push(fut);
         }
@@ -313,6 +327,28 @@ pub fn eval(case: &Case, stats: &mut Stats) -> Outcome {
                     }
                 }
                 OpKind::SetChannel(k) => channel = CHANNEL_STATES[*k as usize % CHANNEL_STATES.len()].to_string(),
+                OpKind::QueryWait => {
+                    stats.class("query:waiting-query-of-the-command-line(polls-until-finished-or-timed-out)");
+                    let missing: BTreeSet<Sub> = [Sub::Redirector, Sub::KeyLatch, Sub::Listener].into_iter().filter(|x| !ready.contains(x)).collect();
+                    match out {
+                        Some(Out::Wait { finished, error }) => {
+                            // its tick is the instant it was created: everything earlier finished before it, so only a latched channel
+                            // makes it "finished"; otherwise it times out with (false, "")
+                            let want = latched(&channel);
+                            if *finished != want {
+                                return Outcome::fail(if *finished { "provision:finished-reported-prematurely" } else { "provision:finished-not-reported" }, format!("op {} of {:?}: the waiting query says finished={} but the model says {} (ready {:?}, channel {:?}); error text {:?}", i, case.ops, finished, want, ready, channel, error));
+                            }
+                            if *finished {
+                                match named(error) {
+                                    Err(e) => return Outcome::fail("provision:error-text-malformed", e),
+                                    Ok(n) if n != missing => return Outcome::fail("provision:error-text-does-not-name-exactly-the-missing-subsystems", format!("op {} of {:?} (waiting query): names {:?}, not ready {:?}", i, case.ops, n, missing)),
+                                    _ => {}
+                                }
+                            }
+                        }
+                        other => return Outcome::fail("provision:query-failed", format!("op {}: {:?}", i, other)),
+                    }
+                }
                 OpKind::QueryInternal | OpKind::QueryHttp(_) => {
                     let missing: BTreeSet<Sub> = [Sub::Redirector, Sub::KeyLatch, Sub::Listener].into_iter().filter(|x| !ready.contains(x)).collect();
                     let (got_finished, got_error): (Option<bool>, String) = match out {
